@@ -52,6 +52,8 @@ DETECT = {  # (incoming dir, patch number) -> (detected, by which check / assert
  ('C14-a', 2): (False, 'not detected', 'trailing-zero trimming in the floating-point branch (pretty_dtoa output): outside the integer-branch kernel that C14 claims'),
  ('C23-a', 1): (True, 'C23 h_c23_temperature: kelvin-to-scale-and-back-restores-the-value (temperature written in millikelvin)', 'missed by the first plan (kelvin only); caught after prefixed-kelvin cases were added'),
  ('C23-a', 2): (False, 'not detected', 'date-time difference computed from raw timestamps (wrong for instants before 1970 with sub-second parts): date-time arithmetic is C19 / the Unix-time pair of C23, both outside the claimed kernels (jiff calendar arithmetic on symbolic values)'),
+ ('C06-a', 1): (True, 'C06 h_c06_rollback: later-input-gives-the-same-result-as-in-a-session-without-the-failure (families unit / dim, run-time failure 2 / (q - q))', ''),
+ ('C06-a', 2): (True, 'C06 h_c06_rollback: later-input-gives-the-same-result-as-in-a-session-without-the-failure (family unit: the probe of the rolled-back name is itself the second failing input)', ''),
  ('C16-a', 1): (True, 'C16 h_c16_infer: inferred-signature-is-accepted-as-annotation (bodies 2 / (a * b), 2 per (a b): the inverse of a product printed as `1 / A × B`)', 'missed by the first template list; caught after templates whose types are pure inverses of products were added'),
  ('C16-a', 2): (True, 'C16 h_c16_infer: inferred-signature-is-accepted-as-annotation (bodies a == b, a != b, if a == b …: "Missing dimension bound" for the printed <A>)', ''),
  ('C21-b', 2): (True, 'C21 h_c21_eq3: assert_eq3-succeeds-only-if-within-eps (equal operands, NaN / negative eps)', ''),
